@@ -45,6 +45,55 @@ def _variant(args):
     shutil.rmtree(td, ignore_errors=True)
 
 
+def _patch_variant(args):
+  """A stored change (seeded defect or behaviour-preserving refactor) applied
+  as a patch to a scratch copy."""
+  pid, idx, kind, name, patch, root = args
+  src = os.path.join(REPO, 'metric_learn')
+  td = tempfile.mkdtemp(prefix='mlstatic_var_', dir=root)
+  try:
+    shutil.copytree(src, os.path.join(td, 'metric_learn'))
+    a = subprocess.run(['git', 'apply', '--whitespace=nowarn', patch], cwd=td,
+                       capture_output=True, text=True)
+    if a.returncode:
+      return dict(idx=idx, kind=kind, file=name, status='stale')
+    env = dict(os.environ, MLSTATIC_REPO=td, MLSTATIC_NOEVIDENCE='1',
+               VERIF_TIER='quick')
+    r = subprocess.run([sys.executable, '-B', '-m', 'mlstatic.cli', pid,
+                        '--tier', 'quick'], cwd=VERIF, env=env,
+                       capture_output=True, text=True)
+    first = [l for l in r.stdout.splitlines()
+             if l.startswith(('REFUTED', 'INCONCLUSIVE', 'ANALYSIS'))][:1]
+    return dict(idx=idx, kind=kind, file=name, exit=r.returncode,
+                status='ran', first=first[0][:200] if first else '',
+                edit=(name, os.path.basename(os.path.dirname(patch))))
+  finally:
+    shutil.rmtree(td, ignore_errors=True)
+
+
+def _stored_changes(pid):
+  """(kind, name, patch path): seeded defects this check is recorded to
+  report, and every stored refactor (must stay silent for every check)."""
+  out = []
+  sd = os.path.join(VERIF, 'seeded')
+  for name in sorted(os.listdir(sd)) if os.path.isdir(sd) else []:
+    mp = os.path.join(sd, name, 'meta.json')
+    pp = os.path.join(sd, name, 'patch.diff')
+    if os.path.exists(mp) and os.path.exists(pp):
+      try:
+        meta = json.load(open(mp))
+      except ValueError:
+        continue
+      if pid in meta.get('caught_by', []):
+        out.append(('break', 'seeded/' + name, pp))
+  rd = os.path.join(VERIF, 'refactors')
+  for name in sorted(os.listdir(rd)) if os.path.isdir(rd) else []:
+    pp = os.path.join(rd, name, 'patch.diff')
+    if os.path.exists(pp):
+      out.append(('keep', 'refactors/' + name, pp))
+  return out
+
+
 def run(pid, rep):
   corpus = CORPUS.get(pid, [])
   t0 = time.time()
@@ -52,8 +101,11 @@ def run(pid, rep):
   try:
     jobs = [(pid, i, k, f, o, n, root) for i, (k, f, o, n) in
             enumerate(corpus)]
+    stored = _stored_changes(pid)
+    pjobs = [(pid, len(jobs) + i, k, nm, pp, root)
+             for i, (k, nm, pp) in enumerate(stored)]
     with ThreadPoolExecutor(16) as ex:
-      res = list(ex.map(_variant, jobs))
+      res = list(ex.map(_variant, jobs)) + list(ex.map(_patch_variant, pjobs))
   finally:
     shutil.rmtree(root, ignore_errors=True)
   ran = [r for r in res if r['status'] == 'ran']
@@ -69,7 +121,7 @@ def run(pid, rep):
   if os.path.exists(path) and not os.environ.get('MLSTATIC_NOEVIDENCE'):
     ev = json.load(open(path))
     ev['coverage']['self_validation'] = dict(
-        variants_total=len(corpus), ran=len(ran), stale=len(stale),
+        variants_total=len(res), ran=len(ran), stale=len(stale),
         breaking_variants=len(breaks), killed=len(killed),
         behaviour_preserving_variants=len(keeps), silent=len(silent),
         missed=[r.get('edit') for r in missed],
@@ -82,7 +134,7 @@ def run(pid, rep):
     json.dump(ev, open(path, 'w'), indent=1, default=str)
   print('%s thorough self-validation: %d variants (%d stale): breaking '
         '%d/%d reported, behaviour-preserving %d/%d silent, wall=%.1fs'
-        % (pid, len(corpus), len(stale), len(killed), len(breaks),
+        % (pid, len(res), len(stale), len(killed), len(breaks),
            len(silent), len(keeps), time.time() - t0))
   for r in missed:
     print('ANALYSIS-ERROR self-validation: breaking variant not reported '
